@@ -202,7 +202,6 @@ class SchemaValidator:
                         'Duplicate argument "%s" on directive "@%s"'
                         % (arg.name, directive.name)
                     )
-                    continue
 
                 if not is_input_type(arg.type):
                     self.add_error(
@@ -231,7 +230,6 @@ class SchemaValidator:
                     'Duplicate field "%s" on "%s"'
                     % (field.name, composite_type)
                 )
-                continue
 
             if not is_output_type(field.type):
                 self.add_error(
@@ -250,7 +248,6 @@ class SchemaValidator:
                     self.add_error(
                         'Duplicate argument "%s" on "%s"' % (arg.name, path)
                     )
-                    continue
 
                 if not is_input_type(arg.type):
                     self.add_error(
@@ -413,7 +410,6 @@ class SchemaValidator:
                     'Interface field "%s" expects type "%s" but "%s" is type "%s"'
                     % (interface_path, field.type, obj_path, object_field.type)
                 )
-                continue
 
             for arg in field.arguments:
                 object_arg = object_field.argument_map.get(arg.name, None)
@@ -505,7 +501,6 @@ class SchemaValidator:
                 self.add_error(
                     'Duplicate field "%s" on "%s"' % (field.name, input_object)
                 )
-                continue
 
             self.check_valid_name(field.name)
 
